@@ -338,7 +338,7 @@ def drive(runner, strategy, n_cases, seed):
 # ------------------------------------------------------------------ sharding
 def _shard_main(args):
     fn, shard, seed, kw = args
-    os.environ["HYPOTHESIS_STORAGE_DIRECTORY"] = tempfile.mkdtemp(prefix="nvf_hyp_")
+    os.environ["HYPOTHESIS_STORAGE_DIRECTORY"] = tempfile.mkdtemp(prefix="nvf_hyp_", dir=os.environ.get("NVF_TMP") or None)
     try:
         rep = fn(shard=shard, seed=seed, **kw)
         return ("ok", rep.partial())
